@@ -268,7 +268,7 @@ func c02GenSteps(r *core.Rng, n int, allowPreds bool, upFirst bool, operandDepth
 	return steps
 }
 
-var c02SafeStr = []string{"x", "abc", "eth0", "a b", "1", "", "é日", "it's", "v[1]", "a/b", "k=v"}
+var c02SafeStr = []string{"x", "abc", "eth0", "a b", "1", "", "é日", "it's", "v[1]", "a/b", "k=v", "Slot 1", " lead"}
 var c02SafeNum = []string{"0", "1", "7", "42", "1.5", "0.25", "100", "123456789012345", "3.0", ".5", "5."}
 
 func c02OperandPath(r *core.Rng) *xp.Node {
@@ -516,6 +516,27 @@ func c02Check(e *xp.Node, src string, res *core.CaseResult) {
 		if !c02CheckRun(m, run, e, src, res) {
 			return
 		}
+	}
+	// the same expression with one more blank inside one of its string literals: another expression, compiled in
+	// the same process right after its twin (a literal is its characters, blanks included)
+	var lits []*xp.Node
+	xp.Walk(e, true, func(n *xp.Node) {
+		if n.Kind == xp.KLit && strings.Contains(n.Lit, " ") {
+			lits = append(lits, n)
+		}
+	})
+	if len(lits) > 0 {
+		n := lits[len(src)%len(lits)]
+		old := n.Lit
+		n.Lit = strings.Replace(old, " ", "  ", 1)
+		src2 := xp.Render(e, xp.RenderFull)
+		res.Ev("twins_differing_in_a_blank_inside_a_literal", 1)
+		if m2, err2 := expr.NewExprMachine(src2, c02PfxMap); err2 != nil {
+			res.Fail("C02/compile-error", src2, "supported location path rejected: "+core.Trunc(err2.Error(), 400))
+		} else {
+			c02CheckRun(m2, 0, e, src2, res)
+		}
+		n.Lit = old
 	}
 	// ... and four evaluations at once, each on a context and a tree of its own: what an evaluation asks its
 	// tree for is its own affair (races as such are C06's subject; here it is the paths that must be right)
